@@ -90,6 +90,29 @@ def history_stage(rep, proof_ok, sc, lib, prop, drv, harness_src, gen, tier, see
         by.setdefault(r["status"], []).append(r)
     monfail = by.get("MONFAIL", []) + by.get("CRASH", [])
     mism = by.get("MISMATCH", []) + by.get("DRIVER", [])
+    # a watchdog verdict alone depends on machine load: a scenario whose only failure is "did not finish in time" is
+    # re-run alone (twice, with a 3x longer watchdog); it counts only if it fails again
+    unconfirmed = 0
+    confirmed = []
+    for r in monfail:
+        only_stuck = r["status"] == "MONFAIL" and r["model_line"].startswith("OK") and \
+            all(f.startswith("status=STUCK") or f.endswith("not-finished") for f in r["mon_line"].split()[1:])
+        if not only_stuck:
+            confirmed.append(r)
+            continue
+        scn = re.sub(r"WATCHDOG \d+", "WATCHDOG 75", r["scenario"])
+        again = []
+        for k in range(2):
+            again += run_scenarios(hexe, drv_exe, [scn], sc, tag="confirm_%s_%d_%d" % (prop, r["i"], k), timeout=120, workers=1)
+            if again[-1]["status"] != "OK":
+                break
+        if any(a["status"] != "OK" for a in again):
+            bad = [a for a in again if a["status"] != "OK"][0]
+            bad["scenario"] = scn
+            confirmed.append(bad)
+        else:
+            unconfirmed += 1
+    monfail = confirmed
     # known findings: a scenario carrying the finding's marker whose ONLY monitor failure is the finding's pattern
     known_hits = {}
     if known_patterns:
@@ -130,7 +153,7 @@ def history_stage(rep, proof_ok, sc, lib, prop, drv, harness_src, gen, tier, see
            "events_replayed": nev, "distinct_nontrivial": len(set(s for s in scenarios if (nontrivial(s) if nontrivial else True))),
            "rule": rule, "samples": scenarios[:2], "generator_stats": stats,
            "history_mismatches": len(mism), "monitor_failures": len(monfail), "search_runs": searched,
-           "disagreements_checked": len(scenarios), "known_finding_scenarios": sum(len(v) for v in known_hits.values())}
+           "disagreements_checked": len(scenarios), "stuck_once_but_passed_when_rerun_alone": unconfirmed, "known_finding_scenarios": sum(len(v) for v in known_hits.values())}
     if monfail:
         r = monfail[0]
         rep.violation("monitor-%d.json" % seed,
